@@ -108,6 +108,11 @@ def generate(rng, tier="quick"):
     cfg = {"psets": [pspec], "nodes": nodes}
     if procs:
         cfg["fresh_hosts"] = True
+        if rng.random() < 0.3:
+            cfg["python_O"] = True          # every simulated process of this run is started with -O
+    if rng.random() < 0.1:
+        for nd in nodes[:3]:
+            nd["subclass"] = True           # the application uses its own subclass of the session class
     return {"property": PROP, "config": cfg, "steps": steps,
             "intent": {"inbound": kind, "cycles": k, "procs": procs}}
 
@@ -125,6 +130,9 @@ class Oracle(Hooks):
                 self.flag(w, "serialize-raised", "serialize() raised %s on a started instance (%d restore cycle(s) so far)"
                           % (ev["out"][4:], n.restores), cls=n.cls, exc=ev["out"][4:], restored=n.restores > 0)
             return
+        if ev["op"] == "recover" and ev["out"] == "inst" and ev["n"] == 0 and not getattr(w.nodes[0], "restored_type_ok", True):
+            self.flag(w, "restored-other-class", "from_serialized() called on an application subclass returned an "
+                      "instance of another class", cls=w.nodes[0].cls)
         if ev["op"] == "recover" and ev["out"].startswith("exc:") and ev["n"] == 0:
             n = w.nodes[0]
             self.flag(w, "restore-refused", "from_serialized() raised %s for state the same role wrote under the same "
